@@ -438,6 +438,73 @@ async fn semi_case(c: SemiCase) -> Vec<(String, String)> {
     v
 }
 
+/// The application's direction ends first (a FIN frame for the stream, as a conforming peer sends it) while the target is
+/// still answering in several parts: the target -> application direction keeps working until the target closes.
+async fn semi_fin_first_case(bytes: usize) -> Vec<(String, String)> {
+    let mut v = vec![];
+    let c = format!("FinFirst {{ bytes: {bytes} }}");
+    let greeting = pat_vec(9, 2, 0, bytes);
+    let target = start_target("127.0.0.1", TargetMode::DripReply, greeting.clone()).await;
+    let mut pair = match linked_pair(PipeCfg::new("c2s"), PipeCfg::new("s2c"), STOP0, STOP0, None).await {
+        Ok(p) => p,
+        Err(e) => return vec![("harness:start".into(), format!("{e}"))],
+    };
+    let server = pair.server.clone();
+    tokio::spawn(async move {
+        while let Some(st) = pair.accepted.recv().await {
+            let s = server.clone();
+            tokio::spawn(async move {
+                let _ = TcpProxyHandler::new().handle_stream(st, s).await;
+            });
+        }
+    });
+    let (st, rx) = match pair.client.open_stream().await {
+        Ok(x) => x,
+        Err(e) => return vec![("harness:open".into(), format!("{e}"))],
+    };
+    pair.client.disable_buffering();
+    let mut dest = vec![1u8, 127, 0, 0, 1];
+    dest.extend_from_slice(&target.addr.port().to_be_bytes());
+    let _ = pair.client.write_data_frame(st.id(), Bytes::from(dest)).await;
+    if !matches!(real_timeout(3000, rx).await, Some(Ok(Ok(())))) {
+        return vec![("C08:semi:open-failed".into(), format!("{c}: stream to the target was not acknowledged"))];
+    }
+    let _ = pair.client.write_data_frame(st.id(), Bytes::from_static(b"ping")).await;
+    let reader = st.reader().clone();
+    let mut got = vec![];
+    let mut eof = false;
+    let mut fin_sent = false;
+    let mut buf = vec![0u8; 65536];
+    loop {
+        let r = {
+            let mut g = reader.lock().await;
+            tokio::time::timeout(Duration::from_millis(3000), g.read(&mut buf)).await
+        };
+        match r {
+            Err(_) => break,
+            Ok(Ok(0)) | Ok(Err(_)) => {
+                eof = true;
+                break;
+            }
+            Ok(Ok(n)) => got.extend_from_slice(&buf[..n]),
+        }
+        if !fin_sent {
+            // the first part of the answer is here: the application's own direction ends now
+            fin_sent = true;
+            let _ = pair.client.write_control_frame(anytls_rs::protocol::Frame::control(anytls_rs::protocol::Command::Fin, st.id())).await;
+        }
+    }
+    if got != greeting {
+        v.push(("C08:semi:other-direction-cut-by-fin".into(), format!("{c}: the application ended its direction after the first part of the answer and then read {} of the {} bytes the target sent (eof={eof})", got.len(), greeting.len())));
+    } else if !eof {
+        v.push(("C08:target-close-not-propagated@handler.rs".into(), format!("{c}: all {} bytes arrived after the application's FIN but no end-of-stream within 3 s of the target's close", greeting.len())));
+    }
+    drop(target);
+    let _ = pair.client.close().await;
+    let _ = pair.server.close().await;
+    v
+}
+
 // ---------------------------------------------------------------- part 3: application closes (LX)
 
 #[derive(Clone, Debug)]
@@ -537,7 +604,13 @@ pub fn run(tier: Tier) -> i32 {
         }
     }
     let rt = rt_multi();
-    let (semi_res, lx_res) = rt.block_on(async {
+    let fin_sizes: Vec<usize> = if thorough { vec![3, 9, 30_000, 100_000] } else { vec![3, 9, 30_000] };
+    let fin_sizes2 = fin_sizes.clone();
+    let (semi_res, lx_res, fin_res) = rt.block_on(async {
+        let mut fhs = vec![];
+        for b in fin_sizes2 {
+            fhs.push(tokio::spawn(semi_fin_first_case(b)));
+        }
         let mut hs = vec![];
         for c in semi_cases.clone() {
             hs.push(tokio::spawn(semi_case(c)));
@@ -562,9 +635,25 @@ pub fn run(tier: Tier) -> i32 {
         for h in hs {
             sr.push(h.await.map_err(|e| e.to_string()));
         }
-        (sr, lxr)
+        let mut fr = vec![];
+        for h in fhs {
+            fr.push(h.await.map_err(|e| e.to_string()));
+        }
+        (sr, lxr, fr)
     });
     drop(rt);
+    for (b, r) in fin_sizes.iter().zip(fin_res) {
+        rep.case(Some(&format!("semi fin-first {b}")));
+        rep.traces_validated += 1;
+        match r {
+            Err(e) => rep.violation("panic:task", &format!("fin-first {b}: {e}"), json!({"engine": "SEMI"})),
+            Ok(v) => {
+                for (k, d) in v {
+                    rep.violation(&k, &d, json!({"engine": "SEMI", "case": format!("fin-first {b}")}));
+                }
+            }
+        }
+    }
     for (c, r) in semi_cases.iter().zip(semi_res) {
         rep.case(Some(&format!("semi {c:?}")));
         rep.traces_validated += 1;
@@ -593,8 +682,8 @@ pub fn run(tier: Tier) -> i32 {
             }
         }
     }
-    rep.sections.insert("propagation_cases".into(), json!({"semi_target_closes": semi_cases.len(), "lx_application_closes": lx_cases.len()}));
-    rep.finish("DX receive side: {client, server role} x {0..3 data frames before the FIN} x {reader blocked / arriving later / with a partly consumed chunk} x read-buffer sizes x sibling stream, with short reads straddling the FIN header and <= B scheduling deviations; SEMI: target sends M bytes and closes / half-closes behind the real TcpProxyHandler; LX: application sends N bytes and closes / half-closes through the real SOCKS5 and HTTP CONNECT front-ends; non-trivial = distinct trace with >= 1 deviation / distinct propagation case")
+    rep.sections.insert("propagation_cases".into(), json!({"semi_target_closes": semi_cases.len(), "semi_application_fin_first": fin_sizes.len(), "lx_application_closes": lx_cases.len()}));
+    rep.finish("DX receive side: {client, server role} x {0..3 data frames before the FIN} x {reader blocked / arriving later / with a partly consumed chunk} x read-buffer sizes x sibling stream, with short reads straddling the FIN header and <= B scheduling deviations; SEMI: target sends M bytes and closes / half-closes behind the real TcpProxyHandler, and the application's FIN frame arrives after the first of three parts of the target's answer (the rest must still arrive, then end-of-stream); LX: application sends N bytes and closes / half-closes through the real SOCKS5 and HTTP CONNECT front-ends; non-trivial = distinct trace with >= 1 deviation / distinct propagation case")
 }
 
 pub fn replay(file: &str) -> i32 {
